@@ -300,7 +300,7 @@ def run(chk, ctx):
                     'phi-manipulation steps (split/admix/sample) take no scaled parameter — by inspection + L3 on composite models']
     q = tier == 'quick'
     k_dt(chk, ctx, rng, 60 if q else 400)
-    k_sweep(chk, ctx, rng, 15 if q else 75, tier)
+    k_sweep(chk, ctx, rng, 15 if q else 45, tier)
     l3_superposition(chk, ctx, rng, 20 if q else 120, tier)
     l3_rescale(chk, ctx, rng, 20 if q else 120, tier)
     l3_dt_wiring(chk, ctx, rng, 40 if q else 200)
